@@ -88,12 +88,12 @@ structure Verdict where
   coveredSame : Nat := 0     -- reported bytes whose stacks are equal (over-approximation, allowed)
   uncoveredBytes : List Nat := []
 
-def firstUncovered (so sn mo mn : Array (List Nat)) (rs : List TSRange) (n : Nat) : Verdict := Id.run do
+def firstUncovered (so sn mo mn : Array (List Nat)) (rs : List TSRange) (n : Nat) (incl : Nat → Bool) : Verdict := Id.run do
   let mut v : Verdict := {}
   for p in [0:n] do
     let a := so.getD p []
     let b := sn.getD p []
-    if a != b then
+    if a != b && incl p then
       v := { v with diffBytes := v.diffBytes + 1 }
       if !covered rs p then
         v := { v with uncovered := v.uncovered + 1, uncoveredBytes := if v.uncovered < 16 then v.uncoveredBytes ++ [p] else v.uncoveredBytes,
@@ -108,10 +108,16 @@ def judgeChanged (li : LangInfo) (old new : TreeDump) (reported : List TSRange) 
   let n := max docLen (max old.root.totalBytes new.root.totalBytes)
   let so := scopeStacks li old.root n
   let sn := scopeStacks li new.root n
-  let v := firstUncovered so sn (leafMask old.root n) (leafMask new.root n) reported n
+  -- bytes excluded from BOTH parses are characters of neither parsed text: not judged (where an empty range sits
+  -- can move node extents over such bytes, the C13 empty-range finding)
+  let incl := fun p => covered old.ranges p || covered new.ranges p
+  let v := firstUncovered so sn (leafMask old.root n) (leafMask new.root n) reported n incl
   if !rangesOrdered reported then { v with fail := some "reported ranges are not sorted/disjoint" }
-  else if reported.any (fun r => r.end_byte > docLen) then
-    { v with fail := some s!"a reported range ends after the document (length {docLen})" }
+  else if reported.any (fun r => r.end_byte > max docLen (max old.root.totalBytes new.root.totalBytes)) then
+    -- bound: the document, or a tree where the tree itself overshoots the text (an erroneous parse whose
+    -- last range ends at UINT32_MAX can end one byte after EOF: that is a tree-vs-text matter (C02/C13), not a
+    -- changed-ranges one)
+    { v with fail := some s!"a reported range ends after the document (length {docLen}) and after both trees ({old.root.totalBytes}, {new.root.totalBytes})" }
   else v
 
 /-- `MatchSound` on one case: on every span where the port's `compare` answered *Matches* the two
